@@ -9,6 +9,7 @@ mod input;
 mod oracle;
 mod bits;
 mod decode;
+mod front;
 mod per;
 mod probes;
 mod seq;
@@ -42,6 +43,8 @@ pub fn run_case(input: &Input) -> Result<(), String> {
         c if c.starts_with("per_") => per::run(&i),
         c if c.starts_with("seq_") => seq::run(&i),
         c if c.starts_with("dec_") => decode::run(&i),
+        "front_resolve" => front::run_resolve(&i),
+        "front_inttext" => front::run_inttext(&i),
         "charset_char" => {
             use asn1rs::model::asn::Charset;
             let c = char::from_u32(i.v[0] as u32).unwrap();
@@ -114,6 +117,8 @@ fn main() {
                     "per" => per::search(&mut rng, budget / 4, &mut try_one),
                     "seq" => seq::search(&mut rng, budget, &mut try_one),
                     "decode" => decode::search(&mut rng, budget * 4, &mut try_one),
+                    "resolve" => front::search_resolve(&mut try_one),
+                    "inttext" => front::search_inttext(&mut try_one),
                     "charset" => {
                         // exhaustive over all chars: Charset::is_valid against the X.680 clause 41 alphabets
                         let mut c = 0u32;
